@@ -37,9 +37,30 @@ def gen_history(rng, length):
             kind = rng.choice(["v1", "a2", "a3", "v2", "hy"])
             op = {"op": "create", "kind": kind, "path": "p", "out": f"m{counter}.torrent",
                   "pl": None if auto else rng.choice([16384, 16384, 32768, 65536])}
-            if kind in ("v1", "a2", "a3") and rng.random() < 0.4:
+            r2 = rng.random()
+            if kind in ("v1", "a2", "a3") and r2 < 0.35:
                 op["cli"] = True
                 op["flags"] = rng.choice([[], ["-q"], ["-v"]])
+            elif kind in ("v1", "a2", "a3") and r2 < 0.5:
+                # through a configuration file; every other call names nothing but the path
+                op["config"] = rng.choice([
+                    {"announce": "http://cfg.tracker/%d http://cfg.tracker/b" % counter, "piece-length": 16384},
+                    {"web-seed": "http://cfg.seed/%d" % counter, "comment": "from config %d" % counter,
+                     "piece-length": 16384},
+                    {"piece-length": 16384}])
+            elif kind in ("v1", "v2", "hy") and r2 < 0.65:
+                # through the interactive dialog; empty answers mean "default / not given"
+                full = rng.random() < 0.5
+                op["interactive"] = True
+                op["answers"] = ["16384",
+                                 "http://dlg.tracker/%d" % counter if full else "",
+                                 "http://dlg.seed/%d" % counter if full else "", "",
+                                 "dialog %d" % counter if full else "", "src" if full else "",
+                                 "y" if full and rng.random() < 0.5 else "",
+                                 "p", "./" + op["out"] if rng.random() < 0.7 else "",
+                                 {"v1": "1", "v2": "2", "hy": "3"}[kind]]
+                if op["answers"][8] == "":
+                    op["out"] = "p.torrent"      # the dialog's default output path
             metas.append(op["out"])
             hist.append(op)
         elif r < 0.6:
